@@ -2093,6 +2093,16 @@ class PX:
                 self.symfields[(tgt.tag, name)] = val
             return None
         if n == "hasattr":
+            o, nm = args[0], args[1]
+            if isinstance(nm, str):
+                if isinstance(o, ZInt):
+                    return nm in ("serialize", "deserialize") or hasattr(int, nm)
+                if isinstance(o, Member):
+                    return nm in ("serialize", "deserialize", "name", "value") or (o.intlike and hasattr(int, nm))
+                if isinstance(o, (bytes, bytearray, str, int, float, list, tuple, dict, set, frozenset)) or o is None:
+                    return hasattr(o, nm)
+                if isinstance(o, NT):
+                    return nm in o.names or o.cref.has(nm) or hasattr(tuple, nm)
             return Sym(f"hasattr({_short(args[0])},{_short(args[1])})")
         if n == "callable":
             a = args[0]
